@@ -16,11 +16,13 @@ Modelling decisions
   arrays; `remaining_budget` is never trusted (its agreement with the recomputation is itself checked
   by C06 `budget-field-disagrees` and C09 `step-field-remaining_budget`).
 * Float ties: the implementation subtracts float32 weights one at a time, the reference sums in
-  float64.  When |weight - remaining budget| <= TIE (1e-5) the rules do not decide which side rounding
-  falls on; such an entry is "don't care" for C04 (care array), is treated as legal by action_legal
-  (so C05 says nothing about it) and C09 accepts either documented outcome.  With uniform random
-  weights this practically never happens; it only matters for injected instances such as weights
-  summing exactly to the budget.
+  float64 (exact for these inputs).  If the state's `remaining_budget` equals the exact recomputation
+  bit for bit, no rounding has happened and "weight <= budget" is judged exactly (so an item whose
+  weight equals the remaining budget IS legal - this is what exposes a `<` for `<=` slip on the
+  injected grid instances).  Otherwise, when |weight - remaining budget| <= TIE (1e-5) the rules do not
+  decide which side the float32 rounding falls on; such an entry is "don't care" for C04 (care array),
+  is treated as legal by action_legal (so C05 says nothing about it) and C09 accepts either documented
+  outcome.  With uniform random weights this practically never happens.
 * C08 objective = sum of the values of the packed items of the final state.  Under mask-respecting
   play every episode ends because nothing fits any more, which is the documented completion.
 """
@@ -45,13 +47,17 @@ def _sparse(env: Any) -> bool:
     return type(env.reward_fn).__name__ == "SparseReward"
 
 
+def _fits(w: np.ndarray, p: np.ndarray, b: float, field: float):
+    """(legal, care) for packed set p, exact remaining budget b and the state's float32 bookkeeping."""
+    legal = ~p & (w <= b)
+    care = p | (np.abs(w - b) > TIE) | (float(field) == b)
+    return legal, care
+
+
 def _legal_care(env: Any, s: Any):
     w = np.asarray(s.weights, np.float64)
     p = np.asarray(s.packed_items, bool)
-    b = _budget(env, s)
-    legal = ~p & (w <= b)
-    care = p | (np.abs(w - b) > TIE)
-    return legal, care
+    return _fits(w, p, _budget(env, s), float(s.remaining_budget))
 
 
 # ---- C04
@@ -156,8 +162,7 @@ def _check_legal_step(env: Any, s: Any, a: int, s2: Any, ts: Any) -> List[str]:
     if abs(float(s2.remaining_budget) - exp_b) > TIE * max(1.0, float(env.total_budget)):
         out.append(f"step-field-remaining_budget: expected {exp_b:.6f} got {float(s2.remaining_budget):.6f}")
     # termination: nothing fits any more (ties on "fits" are left undecided)
-    fits = ~exp_p & (w <= exp_b)
-    sure = exp_p | (np.abs(w - exp_b) > TIE)
+    fits, sure = _fits(w, exp_p, exp_b, float(s2.remaining_budget))
     got_done = int(ts.step_type) == 2
     if (fits & sure).any() and got_done:
         out.append(f"step-termination: episode ended although items {np.nonzero(fits & sure)[0].tolist()} still fit")
